@@ -113,7 +113,7 @@ def call(api, op, args):
         alld = list(Days)
         form = a.get("days_form", "set")
         days = [alld[i] for i in a["days"]]
-        days = set(days) if form == "set" else (list(days) if form == "list" else tuple(days))
+        days = set(days) if form == "set" else (frozenset(days) if form == "frozenset" else (list(days) if form == "list" else tuple(days)))
         return api.create_schedule(a["start"], a["end"], days)
     if op == "stop":
         return api.stop()
@@ -190,9 +190,15 @@ class Device:
         self.shutter = (50, "stop")
         self.sched_records = []
 
+    # session ids a device may well hand out, issued once each at fixed login counts (only by the first device of a world,
+    # so that ids never repeat across devices)
+    SPECIAL_SESSIONS = {2: "00000000", 3: "ffffffff", 4: "fef0f0fe", 5: "0a0d0a0d", 7: "30303030"}
+
     def new_session(self):
         self.logins += 1
         s = struct.pack("<I", (self.session_base + self.logins * 0x01010101 + (self.logins << 8)) & 0xFFFFFFFF)
+        if self.session_base == 0x5E000000 and self.logins in self.SPECIAL_SESSIONS:
+            s = bytes.fromhex(self.SPECIAL_SESSIONS[self.logins])
         self.sessions.append(s)
         return s
 
